@@ -42,7 +42,7 @@ OBLIGATIONS = [
 ]
 ASSUMPTIONS = [
     "labels of distinct nodes are distinct (BuildNodeMap is keyed by label) — hypothesis LabelsDistinct of the exactness theorems",
-    "owners: inputs are cleaned package-relative paths without glob characters",
+    "owners: the model takes the resolved inputs (cleaned package-relative paths); glob resolution is done by a reference matcher of the check for the generated glob shapes (sub/**/*.ext, **/*.ext, sub/*.ext)",
     "edit_predicts: the build re-executes only changed targets and their descendants (C02), taken as a hypothesis here",
 ]
 
@@ -188,10 +188,16 @@ def cli_workspace(ctx, grog, rng, w, nontrivial, stats):
     into_targets = [e for e in es if nodes[e[1]]["target"]]
     if into_targets and rng.random() < 0.25:
         es = es + [rng.choice(into_targets)]           # a dependency listed twice in BUILD.json
-    inputs = {i: rng.sample(FILES, rng.randint(0, 3)) for i, n in enumerate(nodes) if n["target"]}
+    patterns = G.gen_input_patterns(rng, nodes)
     scratch = ctx.scratch(f"ws{w}")
     ws = os.path.join(scratch, "ws")
-    G.write_workspace(ws, nodes, es, inputs=inputs)
+    G.write_workspace(ws, nodes, es, inputs=patterns)
+    G.populate_files(ws, nodes)
+    with open(os.path.join(ws, "unowned.md"), "w") as fh:
+        fh.write("nobody's input\n")
+    inputs = G.resolve_inputs(ws, nodes, patterns)          # package-relative resolved inputs (reference glob resolution)
+    multi = sorted(f for f, pk in G.owner_packages(nodes, inputs).items() if len(pk) >= 2)
+    stats["files_owned_across_packages"] = stats.get("files_owned_across_packages", 0) + len(multi)
     stats["workspaces"] += 1
     req = {"op": "graph.query", "nodes": nodes, "edges": [list(e) for e in es], "cur": "", "patterns": [],
            "tags": [t for t in G.TAGS if rng.random() < 0.1], "exclude": [t for t in G.TAGS if rng.random() < 0.1],
@@ -215,8 +221,11 @@ def cli_workspace(ctx, grog, rng, w, nontrivial, stats):
     # owners: files by workspace-relative path, given relative to the root and to a package directory
     files = []
     for _ in range(3):
-        i = rng.randrange(len(nodes))
-        files.append(os.path.normpath(os.path.join(nodes[i]["pkg"], rng.choice(FILES))))
+        if multi and rng.random() < 0.6:
+            files.append(rng.choice(multi))                # a file in a nested package that is also an input of an enclosing package's target
+        else:
+            i = rng.randrange(len(nodes))
+            files.append(os.path.normpath(os.path.join(nodes[i]["pkg"], rng.choice(FILES))))
     for fset, cwd in ((files[:1], ""), (files, ""), (files[1:], rng.choice(sorted({n["pkg"] for n in nodes})))):
         qs.append({"k": "owners", "files": fset})
         clis.append((["owners"] + [os.path.relpath(os.path.join(ws, f), os.path.join(ws, cwd)) for f in fset], cwd))
@@ -279,8 +288,6 @@ def cli_changes(ctx, grog, rng, ws, env, req, nodes, es, inputs, stats, nontrivi
     import subprocess
     genv = dict(env, GIT_CONFIG_GLOBAL="/dev/null", GIT_CONFIG_SYSTEM="/dev/null", GIT_AUTHOR_NAME="v", GIT_AUTHOR_EMAIL="v@v",
                 GIT_COMMITTER_NAME="v", GIT_COMMITTER_EMAIL="v@v")
-    with open(os.path.join(ws, "unowned.txt"), "w") as fh:
-        fh.write("nobody's input\n")
     for cmd in (["git", "init", "-q"], ["git", "add", "-A"], ["git", "commit", "-q", "-m", "x"]):
         if subprocess.run(cmd, cwd=ws, env=genv, capture_output=True).returncode != 0:
             ctx.notes.append("git not usable in the scratch workspace: `changes` not compared")
@@ -288,7 +295,10 @@ def cli_changes(ctx, grog, rng, ws, env, req, nodes, es, inputs, stats, nontrivi
     owned = sorted({os.path.normpath(os.path.join(nodes[i]["pkg"], f)) for i, fl in inputs.items() for f in fl})
     bad = []
     for trial in range(2):
-        files = rng.sample(owned, min(len(owned), rng.randint(1, 2))) + (["unowned.txt"] if rng.random() < 0.3 else [])
+        multi = sorted(f for f, pk in G.owner_packages(nodes, inputs).items() if len(pk) >= 2)
+        files = rng.sample(owned, min(len(owned), rng.randint(1, 2))) + (["unowned.md"] if rng.random() < 0.3 else [])
+        if multi and rng.random() < 0.5:
+            files = list(dict.fromkeys(files[:1] + [rng.choice(multi)]))
         for f in files:
             with open(os.path.join(ws, f), "a") as fh:
                 fh.write("edited\n")
@@ -334,24 +344,33 @@ def cli_history(ctx, grog, rng, hcase, stats):
     scratch = ctx.scratch(f"hist{hcase}")
     ws = os.path.join(scratch, "ws")
     trace = os.path.join(scratch, "trace.log")
-    inputs = {i: rng.sample(FILES[:3], rng.randint(1, 2)) for i, n in enumerate(nodes) if n["target"]}
-    commands = {i: f"echo '{G.label_str(n)}' >> '{trace}'; cat {' '.join(inputs[i])} > out_{n['name']}.txt" for i, n in enumerate(nodes) if n["target"]}
-    G.write_workspace(ws, nodes, es, inputs=inputs, commands=commands)
+    patterns = G.gen_input_patterns(rng, nodes, own=(1, 2), reach_p=0.6, files=FILES[:3])
+    G.write_workspace(ws, nodes, es, inputs=patterns)
+    G.populate_files(ws, nodes, files=FILES[:3])
+    inputs = G.resolve_inputs(ws, nodes, patterns)
+    # outputs are `.out` files so that no `*.txt` / `*.in` glob ever picks up a build product
+    commands = {i: f"echo '{G.label_str(n)}' >> '{trace}'; cat {' '.join(inputs[i])} > out_{n['name']}.out" for i, n in enumerate(nodes) if n["target"]}
+    G.write_workspace(ws, nodes, es, inputs=patterns, commands=commands)
     # declare the output so that dependants see a changed dependency output
     import json as _json
     for pkg in {n["pkg"] for n in nodes}:
         p = os.path.join(ws, pkg, "BUILD.json")
         body = _json.load(open(p))
         for t in body["targets"]:
-            t["outputs"] = ["out_" + t["name"] + ".txt"]
+            t["outputs"] = ["out_" + t["name"] + ".out"]
         _json.dump(body, open(p, "w"), indent=1)
     env = G.grog_env(scratch)
     rc, _, err, _ = G.run_grog(grog, ["build", "//..."], ws, env, timeout=120)
     if rc != 0:
         ctx.violation("initial build of a generated workspace failed", {"kind": "correspondence", "correspondence": "CLI history workspace", "rc": rc, "stderr": err[-1500:]}, found_input=False)
         return
-    i = rng.choice(sorted(inputs))
-    f = os.path.normpath(os.path.join(nodes[i]["pkg"], inputs[i][0]))
+    multi = sorted(f for f, pk in G.owner_packages(nodes, inputs).items() if len(pk) >= 2)
+    if multi and rng.random() < 0.7:
+        f = rng.choice(multi)          # a file of a nested package directory that is also an input of an enclosing package's target
+        stats["histories_multi_package_file"] = stats.get("histories_multi_package_file", 0) + 1
+    else:
+        i = rng.choice(sorted(k for k in inputs if inputs[k]))
+        f = os.path.normpath(os.path.join(nodes[i]["pkg"], rng.choice(inputs[i])))
     with open(os.path.join(ws, f), "a") as fh:
         fh.write("edited\n")
     open(trace, "w").close()
@@ -367,7 +386,8 @@ def cli_history(ctx, grog, rng, hcase, stats):
     if rc != 0 or not executed <= allowed:
         ctx.violation("after editing one file a target outside owners(f) ∪ rdeps -t(owners f) re-executed",
                       {"kind": "oracle", "oracle": "edit predicts rebuild", "file": f, "executed": sorted(executed), "owners": owners, "allowed": sorted(allowed),
-                       "rc": rc, "nodes": nodes, "edges": es, "inputs": {str(k): v for k, v in inputs.items()}}, signature="edit-reexecutes-outside-owners-rdeps")
+                       "rc": rc, "nodes": nodes, "edges": es, "declared_inputs": {str(k): v for k, v in patterns.items()},
+                       "inputs": {str(k): v for k, v in inputs.items()}}, signature="edit-reexecutes-outside-owners-rdeps")
     if owners and not set(owners) <= executed:
         ctx.notes.append(f"history {hcase}: owner(s) {sorted(set(owners) - executed)} of the edited file did not re-execute")
 
